@@ -11,7 +11,6 @@ import (
 // race detector sees exactly the happens-before edges the real primitive gives.
 
 type Locker = stdsync.Locker
-type WaitGroup = stdsync.WaitGroup
 type Cond = stdsync.Cond
 type Map = stdsync.Map
 
@@ -475,4 +474,44 @@ func (p *Pool) Put(x any) {
 	atomic.AddUint32(tok, 1)
 	p.give(x, tok)
 	Yield(YPoolPut, 0)
+}
+
+// ---------------- WaitGroup ----------------
+
+// WaitGroup wraps the real one: the counter is mirrored at simulator level so
+// that Wait parks the task (instead of blocking the OS thread that holds the
+// baton); the real Wait is called once it cannot block, which gives the race
+// detector the real Done -> Wait edges.
+type WaitGroup struct {
+	real stdsync.WaitGroup
+	n    int
+	key  uintptr
+}
+
+//go:norace
+func (wg *WaitGroup) addN(d int) int { wg.n += d; return wg.n }
+
+//go:norace
+func (wg *WaitGroup) getN() int { return wg.n }
+
+func (wg *WaitGroup) Add(delta int) {
+	wg.real.Add(delta)
+	if wg.addN(delta) <= 0 {
+		Unblock(&wg.key)
+	}
+	Yield(YWaitGroup, 0)
+}
+
+func (wg *WaitGroup) Done() { wg.Add(-1) }
+
+func (wg *WaitGroup) Wait() {
+	if !Running() {
+		wg.real.Wait()
+		return
+	}
+	Yield(YWaitGroup, 0)
+	for wg.getN() > 0 {
+		Block(&wg.key)
+	}
+	wg.real.Wait()
 }
